@@ -7,7 +7,8 @@
           detector's hash table, so that blocks of different tests and periods share chains in every order
      fam  0 = operator new[] / delete[], 1 = malloc / realloc / free
    Steps: alloc id / free id / realloc old -> new id (arg2) / rfail id (realloc that fails) / expect n / ignore /
-   fail / begin / end (arg = id of the copy the output keeps of a leak failure, 0 = it keeps none) / final. *)
+   fail / begin / end (arg = id of the copy the output keeps of a leak failure, 0 = it keeps none; arg2 = 1 when another
+   plugin reports a failure before the leak plugin's post action) / final. *)
 EXTENDS LeakPlugin, Json
 CONSTANTS D,
           Buckets,   \* placements to choose from (subset of 0..6)
@@ -22,9 +23,9 @@ Plain(op, ph, arg) == Step(op, ph, arg, 0, 0, 0) /\ UNCHANGED mal
 GInit == Init /\ h = <<>> /\ done = 0 /\ mal = {}
 GStep == /\ done = 0 /\ Len(h) < D /\ UNCHANGED done
          /\ \/ ntests < MaxTests /\ Begin /\ Plain("begin", "o", 0)
-            \/ \E keep \in Keeps, bk \in Buckets :
+            \/ \E keep \in Keeps, bk \in Buckets, pf \in BOOLEAN :
                   /\ (keep => nextId <= MaxBlocks) /\ (~keep => bk = CHOOSE b \in Buckets : TRUE)
-                  /\ End(keep) /\ Step("end", "o", IF keep THEN nextId ELSE 0, 0, bk, 0) /\ UNCHANGED mal
+                  /\ End(keep, pf) /\ Step("end", "o", IF keep THEN nextId ELSE 0, IF pf THEN 1 ELSE 0, bk, 0) /\ UNCHANGED mal
             \/ /\ nops < MaxOps
                /\ \E ph \in OpPhases :
                      \/ \E bk \in Buckets, fm \in Fams :
@@ -39,7 +40,7 @@ GStep == /\ done = 0 /\ Len(h) < D /\ UNCHANGED done
                      \/ IgnoreOp(ph) /\ Plain("ignore", ph, 0)
                      \/ FailOp(ph) /\ Plain("fail", ph, 0)
 \* closing: end the open test, ask for the final report, print
-GClose == \/ done = 0 /\ Len(h) >= D /\ cur # 0 /\ End(FALSE) /\ Plain("end", "o", 0) /\ UNCHANGED done
+GClose == \/ done = 0 /\ Len(h) >= D /\ cur # 0 /\ End(FALSE, FALSE) /\ Plain("end", "o", 0) /\ UNCHANGED done
           \/ done = 0 /\ Len(h) >= D /\ cur = 0 /\ Final /\ Plain("final", "o", 0) /\ done' = 1
           \/ done = 1 /\ done' = 2 /\ UNCHANGED <<vars, h, mal>>
 GNext == GStep \/ GClose
